@@ -163,6 +163,31 @@ def _retain_by_edge_id(F, b, call):
     return True, "keeps an entry iff its relationship id differs from the captured id"
 
 
+def _position_by_edge_id(F, b, call):
+    """remove(pos) where pos comes (through ?/match/unwrap) from position(|e| e.id == captured id) on an iterator"""
+    if len(call.args) < 2 or call.args[1][0] == "k":
+        return False
+    og = b.origins(call.args[1][1][0], through_calls=lambda c: [0] if c.path.rsplit("::", 1)[-1] in ("unwrap", "expect", "branch", "unwrap_or", "ok_or") else None)
+    for o in og:
+        if o[0] != "call" or o[1].path.rsplit("::", 1)[-1] not in ("position", "rposition"):
+            continue
+        pc = o[1]
+        co = od.closure_of(b, pc.args[1]) if len(pc.args) > 1 else None
+        if not co:
+            continue
+        m = F.mir(co[0])
+        if not m:
+            continue
+        cb = Body(m)
+        ds = cb.defs().get(0, [])
+        if len(ds) == 1 and ds[0][0] == "call":
+            c = ds[0][2]
+            tys = [cb.local_ty(a[1][0]) for a in c.args[:2] if a[0] != "k"]
+            if c.path.rsplit("::", 1)[-1] == "eq" and len(tys) == 2 and all(t.replace("&", "").strip().endswith("types::EdgeId") for t in tys):
+                return True
+    return False
+
+
 def _from_param(cb, local, param):
     og = cb.origins(local)
     return any(o[0] == "arg" and o[1] == param for o in og)
@@ -196,6 +221,8 @@ def removal_by_id(ctx, F, cg, RULE):
                     ctx.ok(RULE, key, why)
                 else:
                     ctx.violation(RULE, key + "|not-by-id", where(r, c.line), "adjacency entries are removed by a predicate that is not `entry.id != deleted id`: %s (parallel relationships between one pair share the neighbour, only the id tells them apart)" % why)
+            elif nm in ("remove", "swap_remove") and _position_by_edge_id(F, b, c):
+                ctx.ok(RULE, key, "removes the entry at a position found by `entry.id == captured id`")
             else:
                 ctx.violation(RULE, key + "|positional", where(r, c.line),
                               "an adjacency entry is removed with %s (by position, not by relationship id): with parallel relationships or an unsorted stub-loaded list the position found need not be the deleted relationship's entry" % nm)
